@@ -1,6 +1,8 @@
 package evaluator
 
 import (
+	"sort"
+
 	"github.com/Syuparn/pangaea/ast"
 	"github.com/Syuparn/pangaea/object"
 )
@@ -11,7 +13,10 @@ func evalKwargs(
 ) (*object.PanObj, *object.PanErr) {
 	pairMap := map[object.SymHash]object.Pair{}
 
-	for k, v := range kwargs {
+	// NOTE: kwargs must be evaluated in the order written
+	// (otherwise order of side effects and the pair kept for duplicated keys are random!)
+	for _, k := range sortedKwargKeys(kwargs) {
+		v := kwargs[k]
 		val := Eval(v, env)
 
 		if err, ok := val.(*object.PanErr); ok {
@@ -31,4 +36,28 @@ func evalKwargs(
 	obj, _ := (object.PanObjInstancePtr(&pairMap)).(*object.PanObj)
 
 	return obj, nil
+}
+
+func sortedKwargKeys(kwargs map[*ast.Ident]ast.Expr) []*ast.Ident {
+	keys := make([]*ast.Ident, 0, len(kwargs))
+	for k := range kwargs {
+		keys = append(keys, k)
+	}
+
+	sort.SliceStable(keys, func(i, j int) bool {
+		si, sj := keys[i].Source(), keys[j].Source()
+		if si == nil || sj == nil {
+			// NOTE: ident without source information (not made by parser)
+			return keys[i].String() < keys[j].String()
+		}
+		if si.Pos.Line != sj.Pos.Line {
+			return si.Pos.Line < sj.Pos.Line
+		}
+		if si.Pos.Column != sj.Pos.Column {
+			return si.Pos.Column < sj.Pos.Column
+		}
+		return keys[i].String() < keys[j].String()
+	})
+
+	return keys
 }
